@@ -269,3 +269,102 @@ Proof.
   rewrite Ey. f_equal. apply dual_update_fixed; auto.
 Qed.
 End Splittings.
+
+(* ====================================================================== *)
+(* douglas_rachford_pd: the fixed state that belongs to a primal-dual solution *)
+Section DR.
+Variables X Y : IPS.
+Variable f : cfun X.
+Variable proxF : R -> X -> X.
+Hypothesis Hf : convex X f.
+Hypothesis HPf : prox_of X f proxF.
+
+Notation pblk := (pblk X Y).
+Notation mk := (mk X Y).
+
+(* sum_i L_i^* v_i as the code accumulates it in douglas_rachford_pd *)
+Definition S0 (bs : list pblk) (vs : list Y) (x : X) : X := sum_adj0 X Y vplus smul (map mk bs) vs x.
+
+(* value of sum_adj as a plain sum *)
+Fixpoint adjsum (bs : list pblk) (vs : list Y) : X :=
+  match bs, vs with
+  | b :: bs', v :: vs' => adj (pA X Y b) v +' adjsum bs' vs'
+  | _, _ => vnull
+  end.
+Lemma sum_adj_eq bs vs acc : sum_adj X Y vplus (map mk bs) vs acc = acc +' adjsum bs vs.
+Proof.
+  revert vs acc; induction bs as [|b bs IH]; intros [|v vs] acc; cbn [map sum_adj adjsum]; try (symmetry; apply vplus_0_r).
+  rewrite IH. cbn [bAt mk]. vec_eq.
+Qed.
+Lemma S0_eq bs vs x : S0 bs vs x = adjsum bs vs.
+Proof.
+  unfold S0, sum_adj0. destruct bs as [|b bs]; destruct vs as [|v vs]; cbn [map adjsum];
+    try (unfold zeroV_of; numR; apply smul_0).
+  rewrite sum_adj_eq. reflexivity.
+Qed.
+
+(* the fixed state belonging to a primal-dual solution (xs, vss):
+     vh_i = vs_i + sigma_i/2 L_i xh,   xh - tau/2 sum L_i^* vh_i = xs - tau sum L_i^* vs_i *)
+Definition vhat (bs : list pblk) (xh : X) (vss : list Y) : list Y :=
+  map2 (fun b v => v +' (psig X Y b / 2) *' pA X Y b xh) bs vss.
+
+Lemma adjsum_lin bs ps vs : length ps = length bs -> length vs = length bs ->
+  adjsum bs (map2 (fun p v => 2 *' p +' (- (1)) *' v) ps vs) = 2 *' adjsum bs ps +' (- (1)) *' adjsum bs vs.
+Proof.
+  revert ps vs; induction bs as [|b bs IH]; intros [|p ps] [|v vs] Hp Hv; cbn in Hp, Hv; try discriminate.
+  - cbn. vec_eq.
+  - cbn [map2 adjsum]. rewrite IH by congruence. vec_eq'.
+Qed.
+Lemma vhat_length bs xh vss : length vss = length bs -> length (vhat bs xh vss) = length bs.
+Proof.
+  revert vss; induction bs as [|b bs IH]; intros [|v vs] Hl; cbn in *; try discriminate; auto.
+  f_equal. apply IH. congruence.
+Qed.
+
+Definition DRstep (bs : list pblk) (tau lam : R) := dr_step X Y vplus smul vplus smul proxF (map mk bs) tau lam.
+Definition DRp1 (bs : list pblk) (tau : R) := dr_p1 X Y vplus smul proxF (map mk bs) tau.
+
+Theorem douglas_rachford_fixed_point bs tau lam xs vss xh :
+  0 < tau -> Forall (pblk_ok X Y) bs ->
+  subgrad X f xs ((- (1)) *' adjsum bs vss) -> dual_ok X Y bs xs vss ->
+  xh +' (- (tau / 2)) *' adjsum bs (vhat bs xh vss) = xs +' tau *' ((- (1)) *' adjsum bs vss) ->
+  DRp1 bs tau (xh, vhat bs xh vss) = xs /\
+  DRstep bs tau lam (xh, vhat bs xh vss) = (xh, vhat bs xh vss).
+Proof.
+  intros Ht Hok Kf Kd C1.
+  assert (Hlen : length vss = length bs) by (clear - Kd; induction Kd; cbn; congruence).
+  assert (P1 : DRp1 bs tau (xh, vhat bs xh vss) = xs).
+  { unfold DRp1, dr_p1. numR. fold (S0 bs (vhat bs xh vss) xh). rewrite S0_eq.
+    unfold two; numR. rewrite C1. apply (prox_fix X f); auto. }
+  split; [exact P1|].
+  unfold DRstep, dr_step. fold (DRp1 bs tau (xh, vhat bs xh vss)). rewrite P1.
+  unfold two; numR.
+  set (w1 := 2 *' xs +' - (1) *' xh).
+  (* p2 = vss *)
+  assert (P2 : map2 (fun b v => bproxGc X Y b (bsigma X Y b) (v +' bsigma X Y b / 2 *' bA X Y b w1))
+                    (map mk bs) (vhat bs xh vss) = vss).
+  { clear C1 Kf P1 Hlen. unfold vhat. induction Kd as [|b v bs vs Hbv Kd IH]; cbn [map map2]; auto.
+    inversion Hok as [|? ? (Hc & Hp & Hs) Hok']; subst. f_equal; [|apply IH; auto].
+    cbn [bproxGc bsigma bA mk].
+    replace (v +' psig X Y b / 2 *' pA X Y b xh +' psig X Y b / 2 *' pA X Y b w1)
+      with (v +' psig X Y b *' pA X Y b xs) by (unfold w1; vec_eq').
+    apply (prox_fix Y (pgc X Y b)); auto. }
+  rewrite P2.
+  fold (S0 bs (map2 (fun p v => 2 *' p +' - (1) *' v) vss (vhat bs xh vss)) xh).
+  rewrite S0_eq, adjsum_lin by (auto; apply vhat_length; auto).
+  set (a := adjsum bs vss) in *. set (c := adjsum bs (vhat bs xh vss)) in *.
+  assert (Z1 : w1 +' - (tau / 2) *' (2 *' a +' - (1) *' c) = xs).
+  { unfold w1. apply inner_ext; intro w.
+    pose proof (f_equal (fun v => <<v, w>>) C1) as E. cbv beta in E. revert E. inner_expand. intro E.
+    lra. }
+  rewrite Z1.
+  f_equal.
+  - vec_eq.
+  - replace (2 *' xs +' - (1) *' w1) with xh by (unfold w1; vec_eq).
+    clear C1 Kf P1 P2 Z1 a c. unfold vhat.
+    revert vss Hlen Kd. induction bs as [|b bs IH]; intros [|v vs] Hlen Kd; cbn in Hlen; try discriminate; auto.
+    cbn [map map2]. inversion Kd; subst. inversion Hok; subst. f_equal; [|apply IH; auto].
+    cbn [bsigma bA mk]. vec_eq.
+Qed.
+End DR.
+
